@@ -2855,18 +2855,14 @@ class SHA1Reader(BinaryIO):
             ChecksumMismatch: If SHA1 doesn't match
         """
         stored = self.f.read(20)
-        # If git option index.skipHash is set the index will be empty
+        # If git option index.skipHash is set the trailer is all zeros. A
+        # trailer that is cut short is neither that nor a checksum.
         if stored != self.sha1.digest() and (
-            not allow_empty
-            or (
-                len(stored) == 20
-                and sha_to_hex(RawObjectID(stored))
-                != b"0000000000000000000000000000000000000000"
-            )
+            not allow_empty or stored != b"\x00" * 20
         ):
             raise ChecksumMismatch(
                 self.sha1.hexdigest(),
-                sha_to_hex(RawObjectID(stored)) if stored else b"",
+                stored.hex(),
             )
 
     def close(self) -> None:
